@@ -48,6 +48,15 @@ def run(tier):
                       {"walk": b["walk"], "event": b["event"]})
     sx.drift(chk, expected, events)
     n_eval = len(events)
+    # the same lookup histories on the dylib backend: incarnations dlopen two different libraries
+    # exporting the same names; addresses are compared with what the dynamic loader reports
+    ddrv, dlibs = sx.dylib_driver()
+    dlines = [("reset %s 64 0" % l.split()[1]) if l.startswith("reset") else l for l in lines]
+    devents, dtpath = sx.replay(ddrv, wd, "dylib", dlines, dlibs)
+    for b in sx.validate(chk, "Trace_Sbx", dtpath, devents, dlines, "lookup-dylib"):
+        chk.violation("[lookup, dylib backend] event %d outside the C11 Contract: %s" % (b["index"], b["event"]),
+                      {"walk": b["walk"], "event": b["event"]})
+    n_eval += len(devents)
     # (a) signature family
     spath = os.path.join(wd, "sig.ndjson")
     sev = []
